@@ -91,7 +91,8 @@ def run_for_property(prop: str):
                 log.append(f"[{'ok' if ok else 'MISS'}] must-fire {name}: rc={rc} {first[:150]}")
             else:
                 ns += 1
-                ok = rc == 0
+                allow2 = json.loads((d / "meta.json").read_text()).get("allow_exit2", []) if (d / "meta.json").exists() else []
+                ok = rc == 0 or (rc == 2 and prop in allow2)
                 if not ok:
                     log.append(f"[NOISY] must-be-silent {name}: rc={rc} {first[:150]}")
             failed += 0 if ok else 1
@@ -128,7 +129,10 @@ def main():
                         print(f"        {first[:200]}")
             else:
                 nsilent += 1
-                noisy = {p: v for p, v in res.items() if v[0] != 0}
+                allow2 = set()
+                if (d / "meta.json").exists():
+                    allow2 = set(json.loads((d / "meta.json").read_text()).get("allow_exit2", []))
+                noisy = {p: v for p, v in res.items() if v[0] != 0 and not (v[0] == 2 and p in allow2)}
                 print(f"[{'ok' if not noisy else 'NOISY'}] must-be-silent {name}: " + ("all 17 checks exit 0" if not noisy else
                       "; ".join(f"{p} rc={rc} {first}" for p, (rc, first) in noisy.items())))
                 if noisy:
